@@ -146,6 +146,9 @@ def _chunking(ctx: Ctx, c: Collector) -> None:
                     pr.append(f"loop condition is {T.show(cond)} instead of pos < len(src_set)")
                 if its[1][1][0] != "tuple" or e.term[2][:2] != its[1][1][1]:
                     pr.append("connect is not called with the zipped (source, destination) pair")
+                inits = [b for b in s.of_kind("bind") if b.term[1] == pos and not b.iters]
+                if not inits or inits[0].term[2] != T.const(0):
+                    pr.append("the position does not start at 0: the first sources are never connected")
                 steps = [b for b in s.of_kind("bind") if b.term[1] == pos and b.iters == its[:1]]
                 stride_ok = bool(steps) and steps[-1].term[2] in (("op", "+", pos, call(T.glob("len"), window)),)
                 if not steps:
